@@ -1,6 +1,6 @@
 (* C02 — UIDs strictly ascending and never reused; UIDNEXT and UIDVALIDITY honest.
    Statements only; proofs in Proofs/MboxInv.v, MboxStep.v, MboxLe.v, MboxUid.v (model: Model/Mbox.v). *)
-From Asimap Require Import Base.Res Spec.SetSem Model.Mbox Proofs.MboxInv Proofs.MboxStep Proofs.MboxLe Proofs.MboxUid.
+From Asimap Require Import Base.Res Spec.SetSem Model.Mbox Proofs.MboxInv Proofs.MboxStep Proofs.MboxLe Proofs.MboxUid Proofs.MboxKeys Proofs.CopyUid.
 From Coq Require Import Sorting.Sorted.
 Open Scope Z_scope.
 
@@ -46,6 +46,29 @@ Theorem C02_new_mailbox_vv : forall w m, get_box w m = None ->
   exists b, get_box (fst (step w (OMkbox m))) m = Some b /\ b_vv b = w_vv w + 1 /\ b_msgs b = [] /\ b_next b = 1.
 Proof. exact mkbox_vv. Qed.
 Print Assumptions C02_new_mailbox_vv.
+
+(* COPYUID / APPENDUID under deliveries by another process: copy()/append() remember the message numbers
+   MH gave their files and, after the resync, report the UID found under each number.  In every reachable
+   world, for ANY batch of files written into the mailbox before that resync (the copies and anybody else's
+   deliveries, in any order), each file is found under its own number with its own content and date and a
+   UID that was not in use before.  (Reporting the last n UIDs of the destination instead is refuted by
+   report_tail_refuted in Proofs/CopyUid.v: the change a sub-agent seeded.) *)
+Theorem C02_copyuid_found_by_number : forall ps pn pd ops n b fs f,
+  get_box (fst (run (init_world ps pn pd) ops)) n = Some b ->
+  let b2 := with_disk b (add_files (b_disk b) (b_msgs b) fs) in
+  In f (b_disk b2) ->
+  exists m, msg_of_key (b_msgs (fst (resync b2))) (m_key f) = Some m /\
+            m_cid m = m_cid f /\ m_date m = m_date f /\ b_next b <= m_uid m.
+Proof. exact reachable_copyuid_by_number. Qed.
+Print Assumptions C02_copyuid_found_by_number.
+
+(* message numbers are positive and strictly ascending in every reachable world (known messages in list
+   order, then the files not taken in yet): what makes the look-up by number unambiguous *)
+Theorem C02_message_numbers_ascending : forall ps pn pd ops n b,
+  get_box (fst (run (init_world ps pn pd) ops)) n = Some b ->
+  StronglySorted Z.lt (map m_key (b_msgs b)) /\ Forall (fun k => 0 <= k) (map m_key (b_msgs b)).
+Proof. exact reachable_keys_ascending. Qed.
+Print Assumptions C02_message_numbers_ascending.
 
 Example C02_example :
   let ops := [OAppend 1 "inbox" [] 0 1; OAppend 1 "inbox" [] 0 2; OSelect 1 "inbox" false;
